@@ -456,7 +456,7 @@ pub fn run_seq(ctx: &Ctx, r: &mut Report) {
         }
     }
     let roots = vec![w.base.clone(), r1];
-    let lim = Limits { max_depth: ctx.pick(4, 7), budget_s: (ctx.left() * 0.9).max(1.0), max_states: 20_000_000 };
+    let lim = Limits { max_depth: ctx.depth(4, 7), budget_s: (ctx.left() * 0.9).max(1.0), max_states: 20_000_000 };
     let (stats, found) = explore::explore(&m, &roots, &lim);
     if let Some(f) = found {
         r.violation(
